@@ -14,10 +14,10 @@ RULE = ("Hypothesis-generated graph cases (as C01) with emphasis on cache state:
 ASSUMPTIONS = ["git is disabled in these projects, so 'reusable cached result' = any recorded version (C05 checks the git rule)"]
 ESSENTIAL = ["two_paths", "cached_hides_subtree", "cached_and_also_directly_needed", "again", "second_invocation",
              "failures_present"]
-TECHNIQUE = "property-based testing (Hypothesis) under a virtual kernel; set/multiset oracle from an independent needed-set model"
+TECHNIQUE = "property-based testing (Hypothesis) under a virtual kernel; set/multiset oracle from an independent needed-set model; one case in 16 runs real task processes (order read from one O_APPEND log, no clock)"
 LEVEL_TEXT = ("Randomised search; spawn multiset, printed progress and new index rows of each run are compared with the "
               "model's needed set. Search, not proof.")
-LEVEL_NOTE = "Trusted: vf/kernel.py spawn log; model.needed; stdout line grammar of Conductor's progress messages."
+LEVEL_NOTE = "Trusted: (real-process share: vf/reallayer.py, the serialisation of O_APPEND writes) vf/kernel.py spawn log; model.needed; stdout line grammar of Conductor's progress messages."
 
 from hypothesis import strategies as st
 
